@@ -124,7 +124,7 @@ class C09(Check):
         "closure is asserted for data whose hints are on named branches only",
         "shape under return_record_name* is not asserted for unions holding by-name references to enum or fixed types (documented approximation: such a reference is counted as a record)",
     ]
-    required_labels = ["multi-conforming", "hint:tuple", "hint:-type", "hint:wrong", "hint:wrong:-type", "float-deferral", "record-tie", "closure", "shape:named", "shape:named-override-single", "shape:record-by-name", "shape:record-override-single", "logical-family", "logical-generated", "decimal-to-later-branch", "no-tuple-notation"]
+    required_labels = ["multi-conforming", "hint:tuple", "hint:-type", "hint:wrong", "hint:wrong:-type", "float-deferral", "record-tie", "closure", "shape:named", "shape:named-override-single", "shape:record-by-name", "shape:record-override-single", "logical-family", "logical-generated", "decimal-to-later-branch", "logical-by-name", "no-tuple-notation"]
     quick = (4000, 1)
     thorough = (10000, 16)
 
@@ -433,6 +433,8 @@ class C09(Check):
             if o[0] == "ok":
                 raise Violation("nonconforming-written", f"datum {datum!r:.150} conforms to no branch but was written as {o[1][:30].hex()}; schema={js!r:.300}")
             return labels
+        if case.get("by_name_logical"):
+            labels.add("logical-by-name")
         if case.get("logical_generated"):
             labels.add("logical-generated")
         elif case.get("may_not_conform"):
